@@ -219,6 +219,15 @@ func (se *SpecEnv) lookupVar(name string) (Value, bool) {
 		}
 	}
 	if v, ok := se.vars[name]; ok {
+		// a by-value parameter that the function spills to memory and updates in place (m.Square(&tmp)):
+		// outside old(), the name denotes the current contents of that cell
+		if se.ghostLocal == nil && !se.inOld {
+			if cur, ok2 := se.state().srcVar[name]; ok2 && se.state().srcAdr[name] {
+				if _, isPtr := v.(*PtrV); !isPtr {
+					return cur, true
+				}
+			}
+		}
 		return v, true
 	}
 	if se.ghostLocal == nil {
@@ -383,6 +392,13 @@ func (se *SpecEnv) field(base Value, name string, baseExpr ast.Expr) Value {
 	switch b := base.(type) {
 	case *PtrV:
 		t := se.fr.v.typeAtPath(b.Obj.Type, b.Path)
+		if _, isPtr := t.Underlying().(*types.Pointer); isPtr {
+			// pointer-typed cell: follow it (h.params.Width)
+			if inner, ok := se.fr.load(se.state(), b).(*PtrV); ok && inner.Obj != nil {
+				return se.field(inner, name, baseExpr)
+			}
+			unsup("spec field %s through a nil or conditional pointer", name)
+		}
 		st, ok := t.Underlying().(*types.Struct)
 		if !ok {
 			unsup("spec field %s of non-struct %s", name, t)
@@ -511,7 +527,31 @@ func (se *SpecEnv) callSpec(c *ast.CallExpr) Value {
 		se.inOld = saveOld
 		return r
 	case "len", "cap":
-		switch a := arg(0).(type) {
+		a0 := arg(0)
+		if p, isP := a0.(*PtrV); isP && p.Obj != nil {
+			if d := se.deref(p); d != nil {
+				if _, isAgg := d.(*AggV); !isAgg {
+					a0 = d
+				}
+			}
+		}
+		switch a := a0.(type) {
+		case *IteV:
+			var lenOf func(v Value) *Term
+			lenOf = func(v Value) *Term {
+				switch x := v.(type) {
+				case *SliceV:
+					if name == "len" {
+						return x.Len
+					}
+					return x.Cap
+				case *IteV:
+					return F.Ite(x.C, lenOf(x.A), lenOf(x.B))
+				}
+				unsup("spec len of %T", v)
+				return nil
+			}
+			return lenOf(a)
 		case *SliceV:
 			if name == "len" {
 				return a.Len
@@ -539,6 +579,8 @@ func (se *SpecEnv) callSpec(c *ast.CallExpr) Value {
 		return r
 	case "ite":
 		return se.fr.v.mergeV(targ(0), arg(1), arg(2))
+	case "imp":
+		return F.Imp(targ(0), targ(1))
 	case "b2i":
 		return F.Ite(targ(0), F.I64(1), F.I64(0))
 	case "forall", "exists":
